@@ -44,6 +44,14 @@ def gen(rng, tier):
         m = gen_pomdp(rng, 2, 2, O, gammas=(F(1, 2), F(3, 4)))
         bs = gen_beliefs(rng, 2, 4)
         out.append("solve %s %s 2 %s %d %s" % (rng.choice(["ip", "ip", "wit"]), rng.choice(["dense", "sparse"]), fmt_pomdp(m), len(bs), " ".join(Qs(b) for b in bs)))
+    # large magnitudes (money in cents): absolute tolerances inside the solvers must not lose vectors
+    for k in range({"quick": 12, "thorough": 40, "search": 24}[tier]):
+        S = rng.choice([3, 3, 4]); A = rng.choice([2, 3]); O = rng.choice([1, 2])
+        m = gen_pomdp(rng, S, A, O, gammas=(F(1, 2), F(3, 4)))
+        scale = rng.choice([1 << 12, 1 << 14, 1 << 16])
+        m["R"] = [[x * scale for x in row] for row in m["R"]]
+        bs = gen_beliefs(rng, S, 6)
+        out.append("solve %s dense %d %s %d %s" % (rng.choice(["ls", "ls", "ip"]), rng.choice([2, 3]), fmt_pomdp(m), len(bs), " ".join(Qs(b) for b in bs)))
     # one solver object, two problems in a row (different sizes and horizons): nothing may carry over
     for k in range({"quick": 30, "thorough": 120, "search": 60}[tier]):
         alg = rng.choice(["ip", "wit", "wit", "ls"])
